@@ -16,7 +16,9 @@ const PATHS: [&str; 15] = ["time", "strings", "math/rand", "crypto/rand", "gopkg
     "example.com/t1", "example.com/t2", "example.com/t3", "example.com/ret4"];
 
 /// what the program declares for the package and how it uses it
-const USES: [&str; 18] = [
+const USES: [&str; 20] = [
+    // a variant / a struct of the program spelled like a foreign type
+    "type-next-to-a-variant-named-like-it", "type-next-to-a-function-named-like-it",
     // an item of the program spelled like the name the package is imported under
     "fn-next-to-a-function-named-like-the-package", "fn-next-to-a-struct-named-like-the-package", "fn-next-to-a-variant-named-like-the-package", "fn-next-to-a-generic-function-named-like-the-package",
     "fn-called", "fn-called-in-closure", "fn-called-discarded", "fn-only-in-unused-fn", "fn-declared-never-called", "type-and-fn-called", "type-declared-only", "type-in-signature-only",
@@ -102,6 +104,17 @@ fn program(paths: &[&str], usage: &str, placement: &str) -> String {
                 decls.push_str(&format!("extern \"go\" \"{p}\" \"Do\" do{k}() -> unit\nfn wrap{k}() -> unit {{ do{k}() }}\n", p = p, k = k));
                 main.push_str(&format!("    {}wrap{}();\n", q, k));
             }
+            "type-next-to-a-variant-named-like-it" | "type-next-to-a-function-named-like-it" => {
+                decls.push_str(&format!("extern type Th{k}\nextern \"go\" \"{}\" \"Make\" mk{k}(n: int32) -> Th{k}\nextern \"go\" \"{}\" \"Show\" show{k}(t: Th{k}) -> string\n", p, p, k = k));
+                main.push_str(&format!("    let v{k} = {q}mk{k}(1);\n    string_println({q}show{k}(v{k}));\n", k = k, q = q));
+                if usage == "type-next-to-a-variant-named-like-it" {
+                    decls.push_str(&format!("enum Ev{k} {{ Th{k}(int32), Quiet{k} }}\n", k = k));
+                    main.push_str(&format!("    let e{k} = {q}Ev{k}::Th{k}(4);\n    let n{k} = match e{k} {{ {q}Ev{k}::Th{k}(w) => w, {q}Ev{k}::Quiet{k} => 0 }};\n    string_println(int32_to_string(n{k}));\n", k = k, q = q));
+                } else {
+                    decls.push_str(&format!("fn th{k}(n: int32) -> int32 {{ n }}\n", k = k));
+                    main.push_str(&format!("    string_println(int32_to_string({q}th{k}(2)));\n", k = k, q = q));
+                }
+            }
             "type-and-fn-called" => {
                 decls.push_str(&format!("extern type Th{k}\nextern \"go\" \"{}\" \"Make\" mk{k}(n: int32) -> Th{k}\nextern \"go\" \"{}\" \"Show\" show{k}(t: Th{k}) -> string\n", p, p, k = k));
                 main.push_str(&format!("    let v{k} = {q}mk{k}(1);\n    string_println({q}show{k}(v{k}));\n", k = k, q = q));
@@ -131,7 +144,7 @@ impl Family for Externs {
         &["C02", "C04"]
     }
     fn rule(&self) -> &'static str {
-        "extern declarations: 15 import paths (incl. last segments spelled like the compiler's temporaries; standard library, nested, a last segment that is not an identifier, a version suffix, two paths with one last segment, a last segment spelled like the runtime's own import, two paths that differ in '/' against '_', a last segment that is a Go keyword) taken one at a time and in all pairs x 18 usages x 2 placements of the declarations (the main package; a library package that main imports) (next to a function, generic function, struct or variant of the program spelled like the name the package is imported under; function called / called in a closure / called and discarded / called only from an unused function / never called; type with constructor and consumer called / type declared only / type used in a signature only; a function declared '-> unit' called as a statement / with its result bound / as the result of a goml function: Go functions without a result can only be statements); oracle: the emitted Go passes the static checker with foreign members opaque (every package the text names is imported under that name, no import unused, no two imports bind one name); the programs are not executed (the Go model has no foreign packages). non-trivial = programs with two packages or a non-identifier last segment; distinct = distinct source text"
+        "extern declarations: 15 import paths (incl. last segments spelled like the compiler's temporaries; standard library, nested, a last segment that is not an identifier, a version suffix, two paths with one last segment, a last segment spelled like the runtime's own import, two paths that differ in '/' against '_', a last segment that is a Go keyword) taken one at a time and in all pairs x 20 usages x 2 placements of the declarations (the main package; a library package that main imports) (next to a function, generic function, struct or variant of the program spelled like the name the package is imported under; a foreign type next to a variant spelled like it; function called / called in a closure / called and discarded / called only from an unused function / never called; type with constructor and consumer called / type declared only / type used in a signature only; a function declared '-> unit' called as a statement / with its result bound / as the result of a goml function: Go functions without a result can only be statements); oracle: the emitted Go passes the static checker with foreign members opaque (every package the text names is imported under that name, no import unused, no two imports bind one name); the programs are not executed (the Go model has no foreign packages). non-trivial = programs with two packages or a non-identifier last segment; distinct = distinct source text"
     }
     fn cases(&self, _tier: Tier) -> Box<dyn Iterator<Item = Value> + '_> {
         let mut v = Vec::new();
